@@ -57,6 +57,7 @@ type J struct {
 	T  string // n b q s a o
 	B  bool
 	Q  int64 // quarter units
+	F  int   // how a number is spelled in the JSON text: 0 = shortest decimal, 1 = with ".0" when integral, 2 = with exponent "e0"
 	S  string
 	A  []*J
 	Ks []string
@@ -235,7 +236,14 @@ func (j *J) JSON() string {
 		}
 		return "false"
 	case "q":
-		return qText(j.Q)
+		t := qText(j.Q)
+		switch {
+		case j.F == 1 && !strings.Contains(t, "."):
+			t += ".0" // the same JSON number (Draft 2020-12: 1 and 1.0 are equal)
+		case j.F == 2:
+			t += "e0"
+		}
+		return t
 	case "s":
 		return strconv.Quote(j.S) // ASCII + \u escapes: valid JSON for the strings we generate
 	case "a":
